@@ -1189,10 +1189,12 @@ void GPIO_ICACHE_FLASH supla_esp_gpio_rs_apply_new_config(
     bool oldButtonsUpsideDown = (supla_esp_cfg.ButtonsUpsideDown) != 0;
     if (newButtonsUpsideDown != oldButtonsUpsideDown) {
       supla_esp_cfg.ButtonsUpsideDown = (newButtonsUpsideDown ? 1 : 0);
-      int newUpButtonGpio = supla_input_cfg[(2 * channel_number) + 1].gpio_id;
-      int newDownButtonGpio = supla_input_cfg[(2 * channel_number)].gpio_id;
-      supla_input_cfg[(2 * channel_number)].gpio_id = newUpButtonGpio;
-      supla_input_cfg[(2 * channel_number) + 1].gpio_id = newDownButtonGpio;
+      if ((2 * channel_number) + 1 < INPUT_MAX_COUNT) {
+        int newUpButtonGpio = supla_input_cfg[(2 * channel_number) + 1].gpio_id;
+        int newDownButtonGpio = supla_input_cfg[(2 * channel_number)].gpio_id;
+        supla_input_cfg[(2 * channel_number)].gpio_id = newUpButtonGpio;
+        supla_input_cfg[(2 * channel_number) + 1].gpio_id = newDownButtonGpio;
+      }
       supla_log(LOG_DEBUG, "RS[%d] buttons upside down %d", channel_number,
                 newButtonsUpsideDown);
       saveConfig = true;
@@ -1270,10 +1272,12 @@ void GPIO_ICACHE_FLASH supla_esp_gpio_fb_apply_new_config(
     bool oldButtonsUpsideDown = (supla_esp_cfg.ButtonsUpsideDown) != 0;
     if (newButtonsUpsideDown != oldButtonsUpsideDown) {
       supla_esp_cfg.ButtonsUpsideDown = (newButtonsUpsideDown ? 1 : 0);
-      int newUpButtonGpio = supla_input_cfg[(2 * channel_number) + 1].gpio_id;
-      int newDownButtonGpio = supla_input_cfg[(2 * channel_number)].gpio_id;
-      supla_input_cfg[(2 * channel_number)].gpio_id = newUpButtonGpio;
-      supla_input_cfg[(2 * channel_number) + 1].gpio_id = newDownButtonGpio;
+      if ((2 * channel_number) + 1 < INPUT_MAX_COUNT) {
+        int newUpButtonGpio = supla_input_cfg[(2 * channel_number) + 1].gpio_id;
+        int newDownButtonGpio = supla_input_cfg[(2 * channel_number)].gpio_id;
+        supla_input_cfg[(2 * channel_number)].gpio_id = newUpButtonGpio;
+        supla_input_cfg[(2 * channel_number) + 1].gpio_id = newDownButtonGpio;
+      }
       supla_log(LOG_DEBUG, "FB[%d] buttons upside down %d", channel_number,
           newButtonsUpsideDown);
       saveConfig = true;
